@@ -189,8 +189,8 @@ class FastNetlist:
     A combinational loop, or a construct the compiler does not know, raises `Unsupported` (use `Netlist` then).
     `crosscheck()` runs this evaluator and the real `Evaluator` side by side."""
 
-    def __init__(self, module, clocks=("sys",)):
-        base = Netlist(module, clocks)
+    def __init__(self, module, clocks=("sys",), base=None):
+        base = base if base is not None else Netlist(module, clocks)
         self.base = base
         comp = _Compiler()
         self.comp = comp
@@ -220,50 +220,97 @@ class FastNetlist:
         for root in sorted(members):
             out, reads, targets = [], set(), set()
             comp.S([stmts[k] for k in members[root]], out, 1, reads, targets)
-            blocks.append([None, reads, targets, out])
+            blocks.append([[stmts[k] for k in members[root]], reads, targets, out])
         tgt_block = {}
         for k, b in enumerate(blocks):
             for t in b[2]:
                 tgt_block[t] = k
         deps = []
+        selfref = set()
         for k, b in enumerate(blocks):
             d = set()
             for r in b[1]:
                 if r in tgt_block:
                     if tgt_block[r] == k:
-                        raise Unsupported("combinational self-reference")
-                    d.add(tgt_block[r])
+                        selfref.add(k)          # reads a signal it drives: settled by local iteration (below)
+                    else:
+                        d.add(tgt_block[r])
             deps.append(d)
-        order, state = [], {}
-
-        def visit(k):
-            stack = [(k, iter(sorted(deps[k])))]
-            state[k] = 1
+        # strongly connected components (Kosaraju, iterative), emitted dependencies first
+        nb = len(blocks)
+        rdeps = [set() for _ in range(nb)]
+        for k in range(nb):
+            for d in deps[k]:
+                rdeps[d].add(k)
+        seen, post = set(), []
+        for root in range(nb):
+            if root in seen:
+                continue
+            seen.add(root)
+            stack = [(root, iter(sorted(deps[root])))]
             while stack:
                 node, it = stack[-1]
                 for d in it:
-                    if state.get(d) == 1:
-                        raise Unsupported("combinational loop")
-                    if d not in state:
-                        state[d] = 1
+                    if d not in seen:
+                        seen.add(d)
                         stack.append((d, iter(sorted(deps[d]))))
                         break
                 else:
-                    state[node] = 2
-                    order.append(node)
+                    post.append(node)
                     stack.pop()
-        for k in range(len(blocks)):
-            if k not in state:
-                visit(k)
+        comp_of, sccs = {}, []
+        for root in reversed(post):
+            if root in comp_of:
+                continue
+            cur, stack = [], [root]
+            comp_of[root] = len(sccs)
+            while stack:
+                node = stack.pop()
+                cur.append(node)
+                for d in rdeps[node]:
+                    if d not in comp_of:
+                        comp_of[d] = len(sccs)
+                        stack.append(d)
+            sccs.append(sorted(cur))
+        # `post` is a post-order of the dependency graph: a component is complete once its last member is emitted and
+        # all its dependencies precede it; emit components in order of the first post-order position of any member's
+        # completion, i.e. topologically (dependencies first)
+        pos = {k: i for i, k in enumerate(post)}
+        order = sorted(range(len(sccs)), key=lambda c: max(pos[k] for k in sccs[c]))
         src = ["def settle(v):"]
-        for k in order:
-            b = blocks[k]
-            ts = sorted(comp.slot(t) for t in b[2])
-            for t in ts:
-                src.append("    p%d = v[%d]" % (t, t))
-            src += b[3]
-            for t in ts:
-                src.append("    v[%d] = p%d" % (t, t))
+        self.loops = 0
+        for c in order:
+            members = sccs[c]
+            if len(members) == 1 and members[0] not in selfref:
+                bl = blocks[members[0]]
+                ts = sorted(comp.slot(t) for t in bl[2])
+                for t in ts:
+                    src.append("    p%d = v[%d]" % (t, t))
+                src += bl[3]
+                for t in ts:
+                    src.append("    v[%d] = p%d" % (t, t))
+            else:
+                # a combinational cycle among statement groups (e.g. an FSM `act` block that reads a signal it drives):
+                # the Evaluator's delta-cycle iteration, restricted to the cycle, until nothing changes
+                self.loops += 1
+                src.append("    for _it in range(64):")
+                src.append("        _ch = False")
+                for k in members:
+                    bl = blocks[k]
+                    out2, r2, t2 = [], set(), set()
+                    comp.S(bl[0], out2, 2, r2, t2)
+                    ts = sorted(comp.slot(t) for t in bl[2])
+                    for t in ts:
+                        src.append("        p%d = v[%d]" % (t, t))
+                    src += out2
+                    for t in ts:
+                        src.append("        if v[%d] != p%d:" % (t, t))
+                        src.append("            v[%d] = p%d" % (t, t))
+                        src.append("            _ch = True")
+                src.append("        if not _ch:")
+                src.append("            break")
+                src.append("    else:")
+                src.append("        raise RuntimeError('combinational loop does not settle')")
         src.append("    return None")
         # ---- sync
         self._sync_targets = {}
@@ -396,6 +443,60 @@ def pack(values_widths):
     return out
 
 
+def spec_layout(full, data_width, address_width, id_width=1):
+    """Channel layouts as AXI4-Lite / AXI4 and the constructor arguments fix them (NOT read from the implementation):
+    channel -> [(field, width)] in the order of the real layouts, `addr` included.  LiteX conventions: `dest`/`user`
+    place-holders of width 1, `id` at least 1 bit, no WID on AXI4."""
+    dw, aw, sw = data_width, address_width, data_width // 8
+    if not full:
+        return {"aw": [("addr", aw), ("prot", 3)], "w": [("data", dw), ("strb", sw)], "b": [("resp", 2)],
+                "ar": [("addr", aw), ("prot", 3)], "r": [("resp", 2), ("data", dw)]}
+    idw = max(1, id_width)
+    ax = [("addr", aw), ("burst", 2), ("len", 8), ("size", 3), ("lock", 1), ("prot", 3), ("cache", 4), ("qos", 4),
+          ("region", 4), ("id", idw), ("dest", 1), ("user", 1)]
+    return {"aw": ax, "w": [("data", dw), ("strb", sw), ("id", 1), ("dest", 1), ("user", 1)],
+            "b": [("resp", 2), ("id", idw), ("dest", 1), ("user", 1)], "ar": list(ax),
+            "r": [("resp", 2), ("data", dw), ("id", idw), ("dest", 1), ("user", 1)]}
+
+
+class WidthMismatch(Exception):
+    pass
+
+
+def check_port_layout(port, full, data_width, address_width, id_width=1, what="port"):
+    """The port the real code hands out must have exactly the channels/fields/widths the constructor arguments ask
+    for: otherwise a mis-sized signal would truncate the stimulus on the implementation side only in ways the
+    generators (which size their values from the ARGUMENTS) may never exercise — reported, not adapted to."""
+    spec = spec_layout(full, data_width, address_width, id_width)
+    for ch in CHANNELS:
+        ep = getattr(port, ch)
+        got = [(n, len(getattr(ep, n))) for n, _ in ep.description.payload_layout + ep.description.param_layout]
+        if got != spec[ch]:
+            raise WidthMismatch("%s channel %s has layout %r, the constructor arguments (data_width=%d, address_width=%d) "
+                                "call for %r" % (what, ch, got, data_width, address_width, spec[ch]))
+        for n in ("valid", "ready", "first", "last"):
+            if len(getattr(ep, n)) != 1:
+                raise WidthMismatch("%s %s.%s is %d bits wide" % (what, ch, n, len(getattr(ep, n))))
+
+
+def pay_width(full, ch, data_width, address_width, id_width=1):
+    """Width of `<ch>.pay` from the constructor arguments."""
+    w = sum(wd for n, wd in spec_layout(full, data_width, address_width, id_width)[ch] if n != "addr")
+    return w + (1 if (full and ch == "w") else 0)
+
+
+def pay_field(full, ch, name, data_width, address_width, id_width=1):
+    """(shift, width) of a named field inside `<ch>.pay`, from the constructor arguments."""
+    sh = 0
+    for n, wd in spec_layout(full, data_width, address_width, id_width)[ch]:
+        if n == "addr":
+            continue
+        if n == name:
+            return sh, wd
+        sh += wd
+    raise KeyError(name)
+
+
 class PortMap:
     """Signals behind the 10 master-to-slave and 8 slave-to-master numbers of one port."""
 
@@ -502,14 +603,23 @@ class AxiFabric:
     """
 
     def __init__(self, name, kind, module, masters, slaves, decs, lean_open, full=False, alphabet=None, env=None,
-                 limit=None, domain=True, fast=True, env_kw=None, monitored=True):
+                 limit=None, domain=True, fast=True, env_kw=None, monitored=True, data_width=8, address_width=2,
+                 m_address_widths=None, id_width=1, bus=None):
         self.name, self.kind, self.module = name, kind, module
         self.masters, self.slaves, self.decs = masters, slaves, decs
         self.n, self.m = len(masters), len(slaves)
         self.full = full
         self.lean_open = lean_open
-        self.bus = masters[0]
-        self.data_width = self.bus.data_width
+        # widths come from the constructor ARGUMENTS (never from len(signal)); the ports are checked against them
+        self.data_width = data_width
+        self.address_width = address_width
+        self.id_width = id_width
+        self.m_address_widths = list(m_address_widths) if m_address_widths else [address_width] * len(masters)
+        for i, p in enumerate(masters):
+            check_port_layout(p, full, data_width, self.m_address_widths[i], id_width, "master port %d" % i)
+        for j, p in enumerate(slaves):
+            check_port_layout(p, full, data_width, address_width, id_width, "slave port %d" % j)
+        self.bus = bus if bus is not None else _SpecBus(data_width, address_width)
         self.addr_shift = (self.data_width // 8).bit_length() - 1
         self.limit = limit
         self.domain = domain
@@ -520,11 +630,14 @@ class AxiFabric:
         d0 = decs[0] if decs else None
         self.early_ok = len(slaves) == 1 and d0 is not None and (
             d0.word() == "all" or (d0.word().startswith("region:0:") and
-                                   (1 << (int(d0.word().split(":")[2]) - 1).bit_length()) >= (1 << masters[0].address_width)))
-        try:
-            nl = FastNetlist(module) if fast else Netlist(module)
-        except Unsupported:
-            nl = Netlist(module)
+                                   (1 << (int(d0.word().split(":")[2]) - 1).bit_length()) >= (1 << address_width)))
+        base = Netlist(module)          # the repository's own lowering + Evaluator (a module can be lowered only once)
+        nl = base
+        if fast:
+            try:
+                nl = FastNetlist(module, base=base)
+            except Unsupported:
+                nl = base
         self.raw = nl
         self.fast = isinstance(nl, FastNetlist)
         self.netlist = _EnvNetlist(nl, self.m)
@@ -694,6 +807,13 @@ class AxiFabric:
         return self.raw.crosscheck(ins, outs, rng, cycles)
 
 
+class _SpecBus:
+    """Stand-in for a bus object where only the constructor arguments matter (`DecRegion.match`, `.fn`)."""
+    def __init__(self, data_width, address_width):
+        self.data_width, self.address_width = data_width, address_width
+        self.addressing = "byte"
+
+
 def _word_addr_width(port):
     return port.address_width - ((port.data_width // 8).bit_length() - 1)
 
@@ -719,27 +839,80 @@ def _tag(full):
     return "AXI" if full else "AXILite"
 
 
-def make_shared(n, decs, full=False, data_width=8, address_width=2, **kw):
+def _build_ports(n, m, data_width, address_width, full, m_address_widths=None, id_width=1):
+    maw = list(m_address_widths) if m_address_widths else [address_width] * n
+    masters = [_ifaces(1, data_width, w, full, id_width)[0] for w in maw]
+    slaves = _ifaces(m, data_width, address_width, full, id_width)
+    return masters, slaves, maw
+
+
+def make_shared(n, decs, full=False, data_width=8, address_width=2, register=False, timeout="none",
+                m_address_widths=None, id_width=1, **kw):
+    """`AXI(Lite)InterconnectShared`.  timeout: "none" (timeout_cycles=None), "default" (argument not passed: the
+    class default 1e6 with its `AXI(Lite)Timeout`, which must stay invisible in runs shorter than that) or a number.
+    m_address_widths: per-master address widths (the shared bus takes the maximum)."""
     m = len(decs)
-    masters, slaves = _ifaces(n, data_width, address_width, full), _ifaces(m, data_width, address_width, full)
-    bus = masters[0]
+    masters, slaves, maw = _build_ports(n, m, data_width, address_width, full, m_address_widths, id_width)
+    bus = _SpecBus(data_width, address_width)
     cls = _classes(full)[2]
-    mod = cls(masters, [(d.fn(bus), s) for d, s in zip(decs, slaves)], timeout_cycles=None)
+    args = {} if timeout == "default" else {"timeout_cycles": None if timeout == "none" else timeout}
+    if register:
+        args["register"] = True
+    mod = cls(masters, [(d.fn(bus), s) for d, s in zip(decs, slaves)], **args)
     name = kw.pop("name", None) or "%sShared %dx%d/%db" % (_tag(full), n, m, data_width)
     lean_open = "shared %d %d %d %d %d %s" % (n, m, int(full), data_width, address_width, " ".join(d.word() for d in decs))
-    return AxiFabric(name, "shared", mod, masters, slaves, decs, lean_open, full=full, **kw)
+    return AxiFabric(name, "shared", mod, masters, slaves, decs, lean_open, full=full, data_width=data_width,
+                     address_width=address_width, m_address_widths=maw, id_width=id_width, bus=bus, **kw)
 
 
-def make_xbar(n, decs, full=False, data_width=8, address_width=2, timeout_arg=None, **kw):
+def make_xbar(n, decs, full=False, data_width=8, address_width=2, timeout_arg=None, register=False,
+              m_address_widths=None, id_width=1, **kw):
     m = len(decs)
-    masters, slaves = _ifaces(n, data_width, address_width, full), _ifaces(m, data_width, address_width, full)
-    bus = masters[0]
+    masters, slaves, maw = _build_ports(n, m, data_width, address_width, full, m_address_widths, id_width)
+    bus = _SpecBus(data_width, address_width)
     cls = _classes(full)[3]
     args = {} if timeout_arg is None else {"timeout_cycles": timeout_arg}
+    if register:
+        args["register"] = True
     mod = cls(masters, [(d.fn(bus), s) for d, s in zip(decs, slaves)], **args)
     name = kw.pop("name", None) or "%sCrossbar %dx%d/%db" % (_tag(full), n, m, data_width)
     lean_open = "xbar %d %d %d %d %d %s" % (n, m, int(full), data_width, address_width, " ".join(d.word() for d in decs))
-    return AxiFabric(name, "xbar", mod, masters, slaves, decs, lean_open, full=full, **kw)
+    return AxiFabric(name, "xbar", mod, masters, slaves, decs, lean_open, full=full, data_width=data_width,
+                     address_width=address_width, m_address_widths=maw, id_width=id_width, bus=bus, **kw)
+
+
+def make_soc_bus(n, regions, interconnect="shared", full=False, data_width=32, address_width=32, **kw):
+    """The fabric the way users get it: `soc.SoCBusHandler(standard, …)` + `add_master` / `add_slave(region=SoCRegion)` +
+    `finalize()` — class selection, `SoCRegion.decoder`, `interconnect_register=True`, `timeout=1e6` as `SoC` passes
+    them.  `regions` = [(origin, size)] (cached regions, so no io_regions are needed); 1 master + 1 slave at origin 0
+    gives the point-to-point class."""
+    import wblib
+    from litex.soc.integration.soc import SoCBusHandler, SoCRegion
+    m = len(regions)
+    masters, slaves, maw = _build_ports(n, m, data_width, address_width, full)
+    h = SoCBusHandler(standard="axi" if full else "axi-lite", data_width=data_width, address_width=address_width,
+                      timeout=1e6, interconnect=interconnect, interconnect_register=True)
+    for i, p in enumerate(masters):
+        h.add_master("m%d" % i, p)
+    for j, (p, (o, sz)) in enumerate(zip(slaves, regions)):
+        h.add_slave("s%d" % j, p, region=SoCRegion(origin=o, size=sz))
+    h.finalize()
+    got_m, got_s = list(h.masters.values()), list(h.slaves.values())
+    if any(a is not b for a, b in zip(masters + slaves, got_m + got_s)):
+        raise WidthMismatch("SoCBusHandler inserted adapters between equal-standard, equal-width ports")
+    decs = [wblib.DecRegion(o, sz) for (o, sz) in regions]
+    p2p = n == 1 and m == 1 and regions[0][0] == 0
+    kind = "p2p" if p2p else ("shared" if interconnect == "shared" else "xbar")
+    expect_cls = _classes(full)[4 if p2p else (2 if interconnect == "shared" else 3)]
+    if type(h._interconnect) is not expect_cls:
+        raise WidthMismatch("SoCBusHandler built %s, expected %s" % (type(h._interconnect).__name__, expect_cls.__name__))
+    name = kw.pop("name", None) or "SoCBusHandler %s %s %dx%d/%db" % (_tag(full), interconnect, n, m, data_width)
+    lean_open = "p2p" if p2p else "%s %d %d %d %d %d %s" % ("shared" if kind == "shared" else "xbar", n, m, int(full), data_width,
+                                                           address_width, " ".join(d.word() for d in decs))
+    if p2p:
+        decs = [wblib.DecAll()]
+    return AxiFabric(name, kind, h, masters, slaves, decs, lean_open, full=full, data_width=data_width,
+                     address_width=address_width, bus=_SpecBus(data_width, address_width), **kw)
 
 
 def make_arb(n, full=False, data_width=8, address_width=2, **kw):
@@ -749,17 +922,19 @@ def make_arb(n, full=False, data_width=8, address_width=2, **kw):
     masters, slaves = _ifaces(n, data_width, address_width, full), _ifaces(1, data_width, address_width, full)
     mod = _classes(full)[0](masters, slaves[0])
     name = kw.pop("name", None) or "%sArbiter %d->1/%db" % (_tag(full), n, data_width)
-    return AxiFabric(name, "arb", mod, masters, slaves, [wblib.DecAll()], "arb %d %d" % (n, int(full)), full=full, **kw)
+    return AxiFabric(name, "arb", mod, masters, slaves, [wblib.DecAll()], "arb %d %d" % (n, int(full)), full=full,
+                     data_width=data_width, address_width=address_width, **kw)
 
 
 def make_dec(decs, full=False, data_width=8, address_width=2, **kw):
     """`AXI(Lite)Decoder(master, slaves)` alone."""
     m = len(decs)
     masters, slaves = _ifaces(1, data_width, address_width, full), _ifaces(m, data_width, address_width, full)
-    mod = _classes(full)[1](masters[0], [(d.fn(masters[0]), s) for d, s in zip(decs, slaves)])
+    mod = _classes(full)[1](masters[0], [(d.fn(_SpecBus(data_width, address_width)), s) for d, s in zip(decs, slaves)])
     name = kw.pop("name", None) or "%sDecoder 1->%d/%db" % (_tag(full), m, data_width)
     lean_open = "dec %d %d %d %d %s" % (m, int(full), data_width, address_width, " ".join(d.word() for d in decs))
-    return AxiFabric(name, "dec", mod, masters, slaves, decs, lean_open, full=full, **kw)
+    return AxiFabric(name, "dec", mod, masters, slaves, decs, lean_open, full=full, data_width=data_width,
+                     address_width=address_width, **kw)
 
 
 def make_p2p(full=False, data_width=8, address_width=2, **kw):
@@ -767,7 +942,8 @@ def make_p2p(full=False, data_width=8, address_width=2, **kw):
     masters, slaves = _ifaces(1, data_width, address_width, full), _ifaces(1, data_width, address_width, full)
     mod = _classes(full)[4](masters[0], slaves[0])
     name = kw.pop("name", None) or "%sPointToPoint/%db" % (_tag(full), data_width)
-    return AxiFabric(name, "p2p", mod, masters, slaves, [wblib.DecAll()], "p2p", full=full, **kw)
+    return AxiFabric(name, "p2p", mod, masters, slaves, [wblib.DecAll()], "p2p", full=full, data_width=data_width,
+                     address_width=address_width, **kw)
 
 
 # ---------------------------------------------------------------------------------------------------------
@@ -871,13 +1047,12 @@ class AxiEnv:
         n, m = self.n, self.m
         pm = inst.mmaps[0]
         port = inst.masters[0]
-        w = lambda sigs: sum(len(s) for s in sigs)
-        self.aw_w, self.w_w, self.b_w, self.ar_w, self.r_w = (w(pm.ms[AWP]), w(pm.ms[WP]), w(pm.sm[BP]), w(pm.ms[ARP]),
-                                                              w(pm.sm[RP]))
-        self.addr_w = len(port.aw.addr)
+        pw = lambda ch: pay_width(inst.full, ch, inst.data_width, inst.address_width, inst.id_width)
+        self.aw_w, self.w_w, self.b_w, self.ar_w, self.r_w = pw("aw"), pw("w"), pw("b"), pw("ar"), pw("r")
+        self.addr_w = inst.address_width            # from the constructor argument, not from the signal
         if self.full:
-            self.awlen = pm.field("aw", "len", port, True)
-            self.arlen = pm.field("ar", "len", port, True)
+            self.awlen = pay_field(True, "aw", "len", inst.data_width, inst.address_width, inst.id_width)
+            self.arlen = pay_field(True, "ar", "len", inst.data_width, inst.address_width, inst.id_width)
             self.wlast_bit = self.w_w - 1
         # masters, per direction d (0 write, 1 read)
         self.a_cur = [[None, None] for _ in range(n)]       # address being presented: (addr, pay)
@@ -923,7 +1098,8 @@ class AxiEnv:
         return self.pools
 
     def _new_addr(self, rng, i, d):
-        pools = self._pools(rng)
+        lim = 1 << self.inst.m_address_widths[i]            # a narrower master reaches only what its address width spans
+        pools = [[a for a in pl if a < lim] for pl in self._pools(rng)]
         out = self.a_acc[i][d] - self.resp[i][d]
         busy = out > 0 or (d == 0 and (self.wbeats[i] or self.w_cur[i] is not None))
         cand = [j for j in range(self.m) if pools[j]]
@@ -932,6 +1108,8 @@ class AxiEnv:
         if self.domain:
             if busy and self.lock[i][d] is not None:
                 j = self.lock[i][d]
+                if not pools[j]:
+                    return None
             else:
                 j = rng.choice(cand)
             return rng.choice(pools[j]), j
@@ -1062,10 +1240,11 @@ class AxiEnv:
             aw, ar = self.a_cur[i]
             if self.sticky is None:
                 self.sticky = [rng.random() < 0.4 for _ in range(n)]
-            parts.append(m_part(aw=(aw[0], aw[1]) if aw else None, idle_aw=(g(self.addr_w), g(self.aw_w)),
+            maw = self.inst.m_address_widths[i]
+            parts.append(m_part(aw=(aw[0], aw[1]) if aw else None, idle_aw=(g(maw), g(self.aw_w)),
                                 w=self.w_cur[i], idle_w=g(self.w_w),
                                 b_ready=1 if self.sticky[i] else int(rng.random() < p_mready),
-                                ar=(ar[0], ar[1]) if ar else None, idle_ar=(g(self.addr_w), g(self.ar_w)),
+                                ar=(ar[0], ar[1]) if ar else None, idle_ar=(g(maw), g(self.ar_w)),
                                 r_ready=1 if self.sticky[i] else int(rng.random() < p_mready)))
         for j in range(m):
             if self.b_cur[j] is None and self.s_b[j] < min(self.s_aw[j], self.s_wl[j]) and rng.random() < p_resp:
@@ -1120,6 +1299,10 @@ class AxiMonitor:
       W2 (served)     an address presented in a cycle in which the bus (crossbar: its slave) holds no unanswered request,
                       no response is offered and no other master requests is seen by its slave — the one whose region
                       contains the byte address — in the next cycle at the latest (no starvation by an idle owner).
+      R2 (resp path)  a response a slave offers for its oldest unanswered request is shown, with its payload, to the
+                      issuer in the same cycle (also while the issuer stalls), and the issuer's ready reaches the slave.
+      D2 (data path)  write data a master presents for an address a slave has accepted is shown, full width, to that
+                      slave in the same cycle (also while the slave stalls).
       E  (early data) on fabrics with one slave that owns the whole address space data may be handed over before its address is presented (the address follows
                       no later than the cycle after the data handshake): until that address is accepted nobody else gets
                       a write address or write data through to that slave.
@@ -1148,7 +1331,7 @@ class AxiMonitor:
         self.owner = [[None] * nres for _ in (0, 1)]               # last master seen handshaking on the resource
         self.waitchg = [[[0] * n for _ in range(nres)] for _ in (0, 1)]
         if self.full:
-            self.wlast_bit = sum(len(s) for s in inst.mmaps[0].ms[WP]) - 1
+            self.wlast_bit = pay_width(True, "w", inst.data_width, inst.address_width, inst.id_width) - 1
 
     def _wlast(self, pay):
         return ((pay >> self.wlast_bit) & 1) if self.full else 1
@@ -1200,6 +1383,15 @@ class AxiMonitor:
                         if any(ptm[i][k] != to_m[i][k] for k in pl):
                             return "P: master %d: %s payload changed while waiting for ready" % (i, nm)
         self.prev = (ms, ss, to_s, to_m)
+        self.fifo_before = [[list(q) for q in self.fifo[d]] for d in (0, 1)]
+        # ---- D2: write data of an accepted address is shown to that address's slave, full width, also while stalled
+        if dom:
+            for i in range(n):
+                if ms[i][WV] and self.wq[i]:
+                    j = self.wq[i][0]
+                    if not (to_s[j][WV] and to_s[j][WP] == ms[i][WP]):
+                        return ("D2: master %d presents write data %#x for its address accepted by slave %d, slave %d sees "
+                                "w.valid=%d data %#x" % (i, ms[i][WP], j, j, to_s[j][WV], to_s[j][WP]))
         for d in (0, 1):
             AV, AA, AP, AR_ = (AWV, AWA, AWP, AWR) if d == 0 else (ARV, ARA, ARP, ARR)
             XV, XP, XR = (BV, BP, BR) if d == 0 else (RV, RP, RR)
@@ -1229,6 +1421,17 @@ class AxiMonitor:
                         return "R: %s response of slave %d (payload %#x) reaches no master in this cycle" % (dn, j, pay)
             if MB:
                 return "R: master %d receives a %s response that no slave hands over in this cycle" % (MB[0][0], dn)
+            # ---- R2: a response offered to a ready issuer gets through in the same cycle (no stalled response path)
+            if dom:
+                for j in range(m):
+                    if ss[j][XV] and self.fifo_before[d][j]:
+                        i = self.fifo_before[d][j][0]
+                        if ms[i][BR if d == 0 else RR] and not to_s[j][BR if d == 0 else RR]:
+                            return ("R2: slave %d offers a %s response, master %d (issuer of its oldest unanswered request) is "
+                                    "ready, but the ready does not reach the slave" % (j, dn, i))
+                        if not (to_m[i][XV] and to_m[i][XP] == ss[j][XP]):
+                            return ("R2: slave %d offers %s response %#x but master %d (issuer of its oldest unanswered "
+                                    "request) does not see it (sees valid=%d payload %#x)" % (j, dn, ss[j][XP], i, to_m[i][XV], to_m[i][XP]))
             # ---- A: addresses --------------------------------------------------------------------------
             MA = [(i, ms[i][AA], ms[i][AP]) for i in range(n) if ms[i][AV] and to_m[i][AR_]]
             SA = [(j, to_s[j][AA], to_s[j][AP]) for j in range(m) if to_s[j][AV] and ss[j][AR_]]
